@@ -243,4 +243,10 @@ def vectors():
     w = {"k": k, "c": c, "depth": 1, "fp": "3442193e", "index": 2 ** 31}
     return [("roundtrip", dict(purpose=44, testnet=False, kind="prv", form=f), w) for f in ("bytes", "stream", "string")] + \
            [("roundtrip", dict(purpose=84, testnet=True, kind="pub", form="string"), w),
-            ("version_algebra", dict(purpose=49, testnet=True, kind="pub"), w)]
+            ("version_algebra", dict(purpose=49, testnet=True, kind="pub"), w)] + \
+           [("unknown_version", {}, dict(w, version=v)) for v in _NEAR_VERSIONS]
+
+
+# boundary vectors (not from /repo/tests): unregistered versions numerically next to a registered one -- their Base58 text
+# starts with the same four letters -- and the extremes
+_NEAR_VERSIONS = [0x0488B21F, 0x0488B21D, 0x0488ADE5, 0x04B24747, 0x043587D0, 0x045F1CF5, 0, 0xFFFFFFFF]
